@@ -251,7 +251,7 @@ def step_case(rng, cfgname, thumb, code, mode=None, it=None, e=None, code_base=N
         devs.append((0xFFFF0000, 0x40))
     # a second device abuts the data device: accesses that run off its end continue in another device. The boundary is not always at a multiple of 4 / 8:
     # devices of odd sizes are legal, and an aligned access can then straddle two devices
-    d1 = DATA[1] + rng.choice((0, 0, 0, 0, 0, 1, 2, 3, 5, -1, -2, -3))
+    d1 = DATA[1] + rng.choice((0, 0, 0, 0, 0, 1, 2, 3, 5, -1, -2, -3, 4, -4, -4))
     devs.append((DATA[0], d1))
     devs.append((DATA[0] + d1, DATA2[1]))
     if rng.random() < 0.04:
